@@ -192,6 +192,25 @@ func TestAWSPluginsSlowRegion(t *testing.T) {
 			}
 		}
 		spy.mu.Unlock()
+		// the caller gives up (context cancelled) while a non-preferred region is still busy wrapping
+		// the data key: whenever EncryptKey returns, with whatever result, the data key is gone
+		w.Reset()
+		w.Regions[regions[0]].Delay = 0
+		w.Regions[regions[1]].Delay = 600 * time.Millisecond
+		cctx, cancel := context.WithCancel(ctx)
+		go func() { time.Sleep(150 * time.Millisecond); cancel() }()
+		_, eerr := p.EncryptKey(cctx, append([]byte(nil), sk...))
+		total++
+		for _, ret := range w.Retained {
+			if !kit.AllZero(ret.Buf) {
+				msg := fmt.Sprintf("%s plugin: the data-key plaintext (%s.%s) still holds key bytes at the moment EncryptKey returns (err=%v) after its context was cancelled while a regional Encrypt was in flight", kind, ret.Region, ret.Op, eerr)
+				kit.Rec.Violation(msg)
+				t.Fatalf("C10 violated: %s", msg)
+			}
+		}
+		cancel()
+		time.Sleep(700 * time.Millisecond)
+		w.Regions[regions[1]].Delay = 0
 	}
 	kit.Rec.Enumerated(total, total)
 	kit.Rec.LabelN("aws-plugin-slow-region", total)
